@@ -329,6 +329,27 @@ func applyForgery(cfg world.Cfg, ms []c08Member, fg c08Forgery) ([]c08Member, bo
 			return nil, false
 		}
 		wrap.PAXRecords["STFS.Signature"] = sig
+	case "outer-extra":
+		// unsigned records smuggled next to the untouched signed pair of the outer header
+		switch fg.Field {
+		case "action":
+			wrap.PAXRecords["STFS.Version"] = "1"
+			wrap.PAXRecords["STFS.Action"] = "DELETE"
+		case "replaces", "name":
+			var other tar.Header
+			if w2, ok := openWrapper(cfg, &out[j].Hdr); ok && json.Unmarshal([]byte(w2.PAXRecords["STFS.EmbeddedHeader"]), &other) == nil && other.Name != "" {
+				wrap.PAXRecords["STFS.Version"] = "1"
+				wrap.PAXRecords["STFS.Action"] = "UPDATE"
+				wrap.PAXRecords["STFS.ReplacesName"] = other.Name
+			} else {
+				wrap.PAXRecords["STFS.ReplacesName"] = "/"
+			}
+		case "size":
+			wrap.PAXRecords["STFS.UncompressedSize"] = "1"
+		default:
+			wrap.PAXRecords["STFS.ReplacesContent"] = "true"
+			wrap.PAXRecords["path"] = "/smuggled"
+		}
 	case "unsigned-plain":
 		out = append(out, c08Member{Hdr: tar.Header{Typeflag: tar.TypeReg, Name: "/plain-forged", Mode: 0644, Format: tar.FormatPAX}, Body: []byte("unsigned")})
 		return out, true
@@ -370,7 +391,7 @@ func applyForgery(cfg world.Cfg, ms []c08Member, fg c08Forgery) ([]c08Member, bo
 	return out, true
 }
 
-var c08Kinds = []string{"edit-keep", "edit-drop", "edit-garbage", "keep-garbage", "swap-sig", "edit-reencode", "stranger", "unsigned-plain", "unsigned-stfs", "body-edit", "body-swap", "body-truncate", "duplicate"}
+var c08Kinds = []string{"outer-extra", "edit-keep", "edit-drop", "edit-garbage", "keep-garbage", "swap-sig", "edit-reencode", "stranger", "unsigned-plain", "unsigned-stfs", "body-edit", "body-swap", "body-truncate", "duplicate"}
 var c08Fields = []string{"name", "size", "mode", "uid", "action", "replaces", "mtime"}
 var c08Sigs = []string{"", "!!!", "AAAA", "aGVsbG8gd29ybGQ=", "====", "not base64 at all", "AAAAAAAAAAAAAAAAAAAAAAAAAAAAAAAAAAAAAAAAAAAAAAAAAAAAAAAAAAAAAAAAAAAAAAAAAAAAAAAAAAAAAAAAAAAAAAAAAAAAAAAAAAA=", "wsBc", "iA=="}
 
